@@ -65,7 +65,9 @@ var (
 	rids   = []string{"a", "b", "c", "ac", "cab"} // (literal ID expressions match as substrings)
 	values = []string{"", "x", "y", "abc", "0", "5", "10", "-3", "007", "5k", "1Ki", "1ki", "1k", "1K", "1000", "1023", "1024", "1025", "2 M", "2Mi", "2097152", "2000000", " 3g ", "3Gi", "1KI",
 		"1P", "1Pi", "1T", "1 Ti", "5kilo", "1e3", "k", "-", "9223372036854775807", "9999999999G"}
-	idRes = []string{"", "", "^[ab]$", "c", "^$", "[b-c]", "^a", "a", "ab", "^c$"}
+	// values around the unit boundaries (binary vs. decimal suffixes): comparisons between them decide the suffix table
+	boundary = []string{"1Ki", "1ki", "1k", "1K", "1000", "1023", "1024", "1025", "2Mi", "2 M", "2097152", "2000000", "3Gi", " 3g ", "1Ti", "1T"}
+	idRes    = []string{"", "", "^[ab]$", "c", "^$", "[b-c]", "^a", "a", "ab", "^c$"}
 )
 
 func genTerm(t *rapid.T) Term {
@@ -84,7 +86,21 @@ func genTerm(t *rapid.T) Term {
 		tm.Values = append(tm.Values, rapid.SampledFrom(values).Draw(t, "tval"))
 	}
 
+	// one term in six is a numeric comparison against a unit-boundary value
+	if rapid.IntRange(0, 5).Draw(t, "boundary-term") == 0 {
+		tm.Op = rapid.SampledFrom([]int{5, 6}).Draw(t, "btop")
+		tm.Values = []string{rapid.SampledFrom(boundary).Draw(t, "btval")}
+	}
+
 	return tm
+}
+
+func genLabelValue(t *rapid.T, label string) string {
+	if rapid.IntRange(0, 4).Draw(t, label+"-boundary") == 0 {
+		return rapid.SampledFrom(boundary).Draw(t, label+"-b")
+	}
+
+	return rapid.SampledFrom(values).Draw(t, label)
 }
 
 func genSel(t *rapid.T) Sel {
@@ -115,7 +131,7 @@ func Gen(t *rapid.T) Plan {
 
 		for k := 0; k < 3; k++ {
 			if rapid.IntRange(0, 2).Draw(t, "haslabel") > 0 {
-				l[keys[k]] = rapid.SampledFrom(values).Draw(t, "lval")
+				l[keys[k]] = genLabelValue(t, "lval")
 			}
 		}
 
@@ -129,7 +145,7 @@ func Gen(t *rapid.T) Plan {
 			K:   rapid.SampledFrom([]string{"set", "set", "set", "setdo", "setdo", "del", "del", "create", "destroy"}).Draw(t, "hk"),
 			ID:  rapid.IntRange(0, 4).Draw(t, "hid"),
 			Key: rapid.IntRange(0, 2).Draw(t, "hkey"),
-			Val: rapid.SampledFrom(values).Draw(t, "hval"),
+			Val: genLabelValue(t, "hval"),
 		}
 	}), 0, 20).Draw(t, "history")
 
